@@ -97,7 +97,7 @@ def decode(b, follow="header"):
             q += 1 + dl
             if -gid in groups:
                 problems.append(("params/duplicate_group_id", "group id %d defined twice" % -gid))
-            groups[-gid] = dict(id=-gid, name=name, locked=nlen < 0, desc=desc, order=nrec)
+            groups[-gid] = dict(id=-gid, name=name, locked=nlen < 0, desc=desc, order=nrec, offset=pos - p0)
         elif gid > 0:
             t = _i8(b, q)
             nd = b[q + 1]
